@@ -77,7 +77,8 @@ ExplainsDebug(e) ==
          /\ IF Len(DebugTransparent(e.fields)) = 1
             THEN LET f == DebugTransparent(e.fields)[1]
                  IN  e.plain = f.leaf /\ e.alt = f.alt       \* identical to formatting that field alone
-            ELSE /\ e.plain = RenderPlain(e.name, e.named, DebugShown(e.fields))
+            ELSE e.check_render =>         \* (names are abstract in renamed programs: there only the twin oracle applies)
+                 /\ e.plain = RenderPlain(e.name, e.named, DebugShown(e.fields))
                  /\ e.alt = RenderAlt(e.name, e.named, DebugShown(e.fields))
          /\ e.twin_equal           \* every formatter flag combination equals the std-derived twin (ignored fields deleted)
 
@@ -101,8 +102,27 @@ ExplainsDeref(e) ==
          /\ e.same_address /\ e.target_is_field_type /\ e.write_lands /\ e.mut_same_address
     ELSE e.rejected
 
+(***************************************************************************)
+(* C12: attribute-free items.  The specification's statement is simply     *)
+(* that derive_ex accepts every shape the standard derive accepts and that *)
+(* every observable of the derive_ex type coincides with the std-derived   *)
+(* twin (the decisive oracles are rustc and std); e.checks lists the       *)
+(* observables that were compared for the traits derived.                  *)
+(***************************************************************************)
+TwinObservables(traits) ==
+    (IF "Debug" \in traits THEN {"debug_equal"} ELSE {}) \cup
+    (IF "PartialEq" \in traits THEN {"eq_equal"} ELSE {}) \cup
+    (IF "PartialOrd" \in traits THEN {"pcmp_equal"} ELSE {}) \cup
+    (IF "Ord" \in traits THEN {"cmp_equal"} ELSE {})
+ExplainsTwin(e) ==
+    /\ e.rustc_ok                                    \* drop-in: the program compiles
+    /\ e.std_ok                                      \* (the twin alone compiles: the shape is one std accepts)
+    /\ \A i \in DOMAIN e.results : e.results[i].ok   \* every compared observable agrees
+    /\ (e.nvals > 0 => TwinObservables(Range(e.traits)) \subseteq {e.results[i].name : i \in DOMAIN e.results})
+
 Explains(e) ==
     CASE e.ev = "reset"       -> TRUE
+      [] e.ev = "twin"        -> ExplainsTwin(e)
       [] e.ev = "clone"       -> ExplainsClone(e)
       [] e.ev = "clone_from"  -> ExplainsCloneFrom(e)
       [] e.ev = "binop"       -> ExplainsBin(e)
